@@ -6,7 +6,7 @@ Import ListNotations.
 Local Open Scope Z_scope.
 
 Section LimitsProofs.
-Context (db : database) (v : variant).
+Context (db : database) (v : variant) (lb : Z).
 
 Notation spf := (spf db).
 Notation eof := (eof db).
@@ -61,7 +61,7 @@ Proof.
     destruct (eof_step ns ii ns1 ii1 (spf f1) (spf f2)) as [ns' ii'] eqn:E.
     pose proof (eof_step_rep _ _ (ns', ii') _ (spf f1) (spf f3) R (IHf3 Hw3 Hc3)) as R2.
     destruct (get_eof db v f3). exact R2.
-  - destruct Hw. apply noclamp_or_sub in Hc. destruct Hc as [Hc1 Hc2].
+  - destruct Hw as (H & H0 & _). apply noclamp_or_sub in Hc. destruct Hc as [Hc1 Hc2].
     pose proof (eof_step_rep _ _ _ _ (spf f1) (spf f2) (IHf1 H Hc1) (IHf2 H0 Hc2)) as R.
     destruct (get_eof db v f1), (get_eof db v f2). exact R.
 Qed.
@@ -89,22 +89,22 @@ Qed.
 
 (* ---- counts ---------------------------------------------------------------- *)
 Lemma count_is_eof (A : Alg) f rt s n e :
-  wf f -> 0 <= s -> 0 <= n -> covered A db v rt f s n -> v_clamp v = true \/ noclamp f ->
+  wf f -> 0 <= s -> 0 <= n -> covered A db v lb rt f s n -> v_clamp v = true \/ noclamp f ->
   impl_eof db v f = Some e ->
-  read_count A db v rt f s n = Some (Z.min n (Z.max 0 (e - s))).
+  read_count A db v lb rt f s n = Some (Z.min n (Z.max 0 (e - s))).
 Proof.
-  intros Hw Hs Hn Hc Hnc He. unfold read_count. rewrite (read_ok A db v f rt s n Hw Hn Hc). simpl.
+  intros Hw Hs Hn Hc Hnc He. unfold read_count. rewrite (read_ok A db v lb f rt s n Hw Hn Hc). simpl.
   rewrite zlen_spec_window by auto. unfold spec_count.
   rewrite (impl_eof_spec f Hw Hnc) in He. destruct (eof f); inversion He; subst. simpl.
   f_equal. destruct (v_clamp v); lia.
 Qed.
 
 Lemma count_no_eof (A : Alg) f rt s n :
-  wf f -> 0 <= n -> covered A db v rt f s n -> v_clamp v = true \/ noclamp f ->
+  wf f -> 0 <= n -> covered A db v lb rt f s n -> v_clamp v = true \/ noclamp f ->
   impl_eof db v f = None ->
-  read_count A db v rt f s n = Some n.
+  read_count A db v lb rt f s n = Some n.
 Proof.
-  intros Hw Hn Hc Hnc He. unfold read_count. rewrite (read_ok A db v f rt s n Hw Hn Hc). simpl.
+  intros Hw Hn Hc Hnc He. unfold read_count. rewrite (read_ok A db v lb f rt s n Hw Hn Hc). simpl.
   rewrite zlen_spec_window by auto. unfold spec_count.
   rewrite (impl_eof_spec f Hw Hnc) in He. destruct (eof f); inversion He; subst. reflexivity.
 Qed.
@@ -136,7 +136,7 @@ Proof.
     rewrite (div_ge_iff (k * spf f2) (spf f1) (bof_raw db f2)) by lia.
     rewrite (div_ge_iff (k * spf f3) (spf f1) (bof_raw db f3)) by lia.
     rewrite !Z.max_lub_iff, !cdiv_le_iff by lia. lia.
-  - destruct Hw as [Hw1 Hw2]. rewrite andb_true_iff, (IHf1 Hw1), (IHf2 Hw2).
+  - destruct Hw as (Hw1 & Hw2 & _). rewrite andb_true_iff, (IHf1 Hw1), (IHf2 Hw2).
     pose proof (spf_pos db f1 Hw1). pose proof (spf_pos db f2 Hw2).
     rewrite (div_ge_iff (k * spf f2) (spf f1) (bof_raw db f2)) by lia.
     rewrite Z.max_lub_iff, cdiv_le_iff by lia. lia.
@@ -174,7 +174,7 @@ Proof.
     rewrite R1, R2, R3. replace (B2 * spf f2 * spf f1) with (B2 * spf f1 * spf f2) by lia.
     replace (B3 * spf f3 * spf f1) with (B3 * spf f1 * spf f3) by lia.
     rewrite !cdiv_mul by lia. split; nia.
-  - destruct Hw as [Hw1 Hw2], Hp as [Hp1 Hp2].
+  - destruct Hw as (Hw1 & Hw2 & _), Hp as [Hp1 Hp2].
     destruct (IHf1 Hw1 Hp1) as (B1 & E1 & R1 & P1). destruct (IHf2 Hw2 Hp2) as (B2 & E2 & R2 & P2).
     pose proof (spf_pos db f1 Hw1). pose proof (spf_pos db f2 Hw2).
     exists (Z.max B1 B2). rewrite E1, E2, bof_step_frames by lia. split; [reflexivity|].
@@ -257,7 +257,7 @@ Proof.
     destruct (bof_step_fixed B d B3 d3 (spf f1) (spf f3) Hce ltac:(lia) ltac:(lia) Hd Hd3) as (B' & d' & E' & Hd' & R').
     exists B', d'. rewrite E1, E2, E3, E, E'. split; [reflexivity|]. split; [exact Hd'|].
     rewrite R', R, R1, R2, R3. reflexivity.
-  - destruct Hw as [Hw1 Hw2].
+  - destruct Hw as (Hw1 & Hw2 & _).
     destruct (IHf1 Hw1) as (B1 & d1 & E1 & Hd1 & R1). destruct (IHf2 Hw2) as (B2 & d2 & E2 & Hd2 & R2).
     pose proof (spf_pos db f1 Hw1). pose proof (spf_pos db f2 Hw2).
     destruct (bof_step_fixed B1 d1 B2 d2 (spf f1) (spf f2) Hce ltac:(lia) ltac:(lia) Hd1 Hd2) as (B & d & E & Hd & R).
